@@ -38,6 +38,15 @@ theorem storedEntry_ok (r : Rev) (f : Faults) (e : Entry) (h : storedEntry true 
     · exact leftEntry_ok r _ _ h
     · cases h
 
+/-- fixed code: the parser returns a package only for the whole stream -/
+theorem pulled_some (r : Rev) (f : Faults) (p : Pkg) (h : pulled true r f = some p) : parse r.docs = some p := by
+  unfold pulled at h
+  split at h
+  · cases h
+  · split at h
+    · simp at h
+    · exact h
+
 theorem set_self (c : Cache) (k : String) (x : Option Entry) : (c.set k x) k = x := by
   cases x <;> simp [Cache.set, Cache.put, Cache.erase]
 
@@ -107,10 +116,7 @@ theorem fetch_parsed (r : Rev) (f : Faults) (c : Cache) (hinv : ∀ e, c r.id = 
     · split at h
       · cases h
       · simp only [Fetch.parsed.injEq] at h
-        unfold pulled at h
-        split at h
-        · exact h
-        · cases h
+        exact pulled_some r f p h
 
 /-! ### one reconcile -/
 
